@@ -182,7 +182,7 @@ def check(run, project):
     reach = cg.reachable(entries)
     run.explanation = ("call graph from the decode/conversion entry points (method calls resolved by name over repo classes), "
                        "effect analysis of every reachable function, capacity check of memoising decorators against the key "
-                       "space from L")
+                       "space from L, and (on the unmodified source) no caller mutates what a memoised function returned")
     run.cover(functions_reachable=len(reach), functions=[repr(r) for r in list(reach.values())[:8]])
     run.require(len(reach) >= 40, f"C12: only {len(reach)} reachable functions (call graph broken?)")
     keyspace = sum(1 for c in L.all.values() if c.is_subclass_of(L.TPMS_PARAMS) and c is not L.TPMS_PARAMS)
